@@ -278,3 +278,39 @@ pub fn outcome_str(o: &Outcome) -> String {
         Err(e) => format!("Err({:?})", e),
     }
 }
+
+/// Calls `$f::<V>($args)` for the variant with index / name `$sel`.
+#[macro_export]
+macro_rules! with_variant {
+    ($sel:expr, $f:ident ( $($args:expr),* )) => {{
+        match $crate::variant::variant_index($sel) {
+            0 => $f::<$crate::variant::VShort>($($args),*),
+            1 => $f::<$crate::variant::VNormal>($($args),*),
+            2 => $f::<$crate::variant::VNormalLC>($($args),*),
+            3 => $f::<$crate::variant::VLong>($($args),*),
+            _ => $f::<$crate::variant::VLongLC>($($args),*),
+        }
+    }};
+}
+
+pub trait VariantSel {
+    fn sel(&self) -> usize;
+}
+impl VariantSel for usize {
+    fn sel(&self) -> usize {
+        *self
+    }
+}
+impl VariantSel for u64 {
+    fn sel(&self) -> usize {
+        *self as usize
+    }
+}
+impl VariantSel for &str {
+    fn sel(&self) -> usize {
+        VARIANT_NAMES.iter().position(|n| n == self).expect("variant name")
+    }
+}
+pub fn variant_index<S: VariantSel>(s: S) -> usize {
+    s.sel()
+}
